@@ -19,8 +19,8 @@ CFG = {
                   "grammars; harness, stand-in executable and canonicaliser (random names renamed by first occurrence). Modelled not "
                   "verified: BTreeMap/HashMap/PathBuf ordering and equality, to_string_lossy on UTF-8 paths, std::process::Command argv passing.",
     "shrink": [],
-    "rule": "exhaustive: each of 33 hostile strings (leading dashes, option look-alikes of docker/pack, '=', spaces, empty, Unicode, shell "
-            "metacharacters) alone in each of 12 positions (entrypoint, sole/middle command word, env value, env key, mount source, mount "
+    "rule": "exhaustive: each of 32 distinct hostile strings (leading dashes, option look-alikes of docker/pack, '=', spaces, empty, Unicode, shell "
+            "metacharacters) alone in each of up to 12 positions (the empty string is not used as env key, mount path or buildpack reference, strings with = not as env key) (entrypoint, sole/middle command word, env value, env key, mount source, mount "
             "target, buildpack reference, builder, build env value, shell command, exec command); then seeded random scenarios: "
             "build config (builder, relative/absolute app path in 9 spellings, preprocessor with <=3 edits or none, <=3(+1) buildpacks, "
             "<=3 env pairs, expected success/failure) with <=3 acts out of start_container(random config: entrypoint, <=3 command words, "
